@@ -861,7 +861,7 @@ func (runInfo *runInfoStruct) invokeChanExpr(expr *ast.ChanExpr) {
 	}, {
 		Dir:  reflect.SelectSend,
 		Chan: lhs,
-		Send: rhs,
+		Send: copyOfElement(rhs),
 	}}
 	if !runInfo.options.Debug {
 		// captures panic
